@@ -97,9 +97,9 @@ func offsetCounters(m map[string]int) map[string]int {
 func checkC01(c *Check) {
 	c.Rule = "TLC (RulesGen.tla, class-level alphabet AlphaDoc, filter FilterDoc) enumerates every complete document the validator model accepts up to the length bound (nesting of lists, maps, nodes, edges, record types/records, markers/references, every scalar kind, every array kind); each is concretised several times (integers on every width boundary in every event form, float classes built by construction, decimal floats, all time-zone forms, Unicode strings, typed arrays of lengths 0/1/15/16/17, arrays chunked and split at random byte positions) and driven rules -> cbe.Encoder -> bytes -> cbe.Decoder -> rules; NormCBE(in) must equal NormCBE(out). non-trivial = contains a container or an array; distinct = (abstract document, concretisation seed)"
 	c.Assumptions = []string{"harness abs/concretiser/normaliser (abs.go, values.go, norm.go)", "TLC", "big binary floats that are not exact in float64 have no CBE binary form and are not generated (DESIGN 5.7)", "zero-valued times and OnNegativeInt(0) are not generated"}
-	maxLen, reps := 7, 2
+	maxLen, reps := 6, 2
 	if c.Tier == "thorough" {
-		maxLen, reps = 8, 3
+		maxLen, reps = 7, 3
 	}
 	docs := genCorpus(c, maxLen, "corpus")
 	var skipped int64
